@@ -203,7 +203,7 @@ def main(tier):
     tasks = []
     for P in ([127, 128], [127, 128, 129], [127, 128, 129, 130]):
         for fmt in FORMATS:
-            k = 4 if fmt == "default" else K
+            k = K
             tasks.append(("K=%d,P=%d,fmt=%s" % (k, len(P), fmt), k, P, fmt, {}))
         tasks.append(("K=%d,P=%d,hyperlinks" % (K, len(P)), K, P, "default", {"hyperlinks": True}))
         tasks.append(("K=%d,P=%d,width=30" % (K, len(P)), K, P, "default", {"width": "30"}))
